@@ -353,5 +353,7 @@ def expand_aliases(F, node, depth=0, at=None):
     if n.k == "MemberExpr":
         return "%s%s%s" % (expand_aliases(F, n.kids[0], depth, at), "->" if n.d.get("arrow") else ".", n.d["field"])
     if n.k == "ArraySubscriptExpr":
-        return "%s[%s]" % (expand_aliases(F, n.kids[0], depth, at), n.kids[1].strip(casts=True).text())
+        i0 = n.kids[1].strip(casts=True)
+        itxt = expand_aliases(F, i0, depth, at) if i0.k in ("ArraySubscriptExpr", "MemberExpr") else i0.text()
+        return "%s[%s]" % (expand_aliases(F, n.kids[0], depth, at), itxt)
     return n.text()
